@@ -39,6 +39,9 @@ CHECKS = {
  "C14": ("exploration", "vote-counting model vs DefaultSaftyRules.CheckProposal / CheckVote / CalVotesThreshold over all multisets of signature entries (valid / repeated / non-member / wrong id / damaged / key mismatch, real ECDSA signatures) for n<=4 exhaustively and sampled for n=5..10; the same certificates through tdpos / xpoa CheckMinerMatch over a stub ledger with three validator sets; vote streams into a real Smr collector",
          "Exhaustive over the small-n box (recorded in coverage.exhaustive_box), sampled beyond; runtime oracle = executable model written from the statement.",
          "Trusted: the 140-line vote-counting model (cmd/c14/model.go); ECDSA / SHA-256.", "DESIGN.md §3 C14"),
+ "C07": ("exploration", "schema-walk mutation monitor: every single-field mutant (and boundary shift) of a corpus of accepted transactions of all forms is verified with the id kept and with the id recomputed; signature attacks (swap, replay, foreign key, dropped signer + re-sign); digest grouping for injectivity; (false,nil) and panic detection",
+         "Runtime oracle over ~4.5k verifications of ~2.2k mutants of 10 accepted transactions; complete for single-field edits of these transactions, not for 'all transactions'.",
+         "Trusted: ECDSA P-256 / SHA-256; the explicit uncovered-field set {txid, blockid, received_timestamp, modify_block, HD_info for v1}.", "DESIGN.md §3 C07"),
 }
 NOT_YET = "check not built yet in this session (work in progress; see DESIGN.md for the planned monitor)"
 ALL = ["C%02d" % i for i in range(1, 21)]
